@@ -251,10 +251,11 @@ func (m *replyModel) baseTransfer(in ssa.Instruction, s int) core.StateSet {
 		if cals := m.boundCallees(cc.Value); len(cals) > 0 {
 			allMust, anyMay := true, false
 			for _, cal := range cals {
-				if !m.must[cal] {
+				must, may := m.literalMustMay(cal)
+				if !must {
 					allMust = false
 				}
-				if m.may[cal] {
+				if may {
 					anyMay = true
 				}
 			}
@@ -339,7 +340,7 @@ func (m *replyModel) branch(iff *ssa.If, succ int, s0 int) (int, bool) {
 func (m *replyModel) flow(fn *ssa.Function, entry core.StateSet) *core.FlowResult {
 	saved := m.root
 	m.root = fn
-	f := &core.Flow{Fn: fn, Entry: entry, Transfer: m.transfer, Branch: m.branch, Inline: func(cal *ssa.Function) bool { return m.inlineable(cal) }}
+	f := &core.Flow{Fn: fn, Entry: entry, Transfer: m.transfer, Branch: m.branch, Tags: true, Inline: func(cal *ssa.Function) bool { return m.inlineable(cal) }}
 	res := f.Run()
 	m.root = saved
 	// strip the return-value tags: consumers see {No,Yes} only
@@ -458,4 +459,24 @@ func isRecoverNilEdge(e edgeCond) bool {
 		truth = !truth
 	}
 	return (ci.Op == token.EQL) == truth
+}
+
+// literalMustMay: must / may reply of a callee; a func literal handed on as a
+// callback (`func(e *Error) { r.error(e, r.meta()) }`) is judged by its body.
+func (m *replyModel) literalMustMay(cal *ssa.Function) (must, may bool) {
+	must, may = m.must[cal], m.may[cal]
+	if cal.Parent() == nil || must || may {
+		return
+	}
+	for _, c2 := range core.Calls(cal) {
+		if c3 := c2.Common().StaticCallee(); c3 != nil && !core.IsGo(c2) && !core.IsDefer(c2) {
+			if m.must[c3] && unconditionalIn(c2) {
+				must = true
+			}
+			if m.may[c3] || m.must[c3] {
+				may = true
+			}
+		}
+	}
+	return
 }
